@@ -127,7 +127,7 @@ Print Assumptions C01_h1_roundtrip_chunked.
 
 (* --- END TO END, for EVERY request the HTTP/1.1 model accepts: a reader of the bytes on the wire
    gets exactly the described request (method, target, field lines with their values as HTTP defines
-   them, body) and whatever follows on the connection is untouched.  Hypotheses: no verbatim-key
+   them, body) and whatever follows on the connection is untouched.  Premises: no verbatim-key
    header spells Content-Length / Transfer-Encoding (C16's subject); the target has no blank (only
    the raw query text of the caller's own URL can put one there, see design.d); for a body of
    unknown length, [parts] is a partition of it whose size lines are well-formed. --- *)
